@@ -119,6 +119,11 @@ theorem C20_meta_reports_nothing_partial (defOn : Code → Bool) (cfg : Config) 
     (c : Code) (r : Range) (hfe : c ∉ st.fileEnabled) : reported defOn cfg st true c r = false := by
   simp [reported, enabledByCode, hfe]
 
+/-- `---@meta` takes effect exactly for files under some workspace root (known finding
+`meta-outside-workspace` for the rest) -/
+theorem C20_meta_effective (kind : WorkspaceKind) : effectiveMeta true kind = true ↔ kind ≠ .outside := by
+  cases kind <;> simp [effectiveMeta]
+
 /-- the current code reports in a meta file that carries `---@diagnostic enable: c` (file enable is
 checked before the meta test) — known finding `meta-file-enable` -/
 theorem C20_meta_witness :
